@@ -275,7 +275,7 @@ func verifyFunc(l *Loaded, spec *FuncSpec, prop string) (res *FuncResult) {
 			}
 		}
 		nSeen++
-		if nReturned < 12 || (nSeen%8 == 0 && nReturned < 72) {
+		if nReturned < 12 || (nSeen%8 == 0 && nReturned < 72) || (crossCheck && nReturned < 600) {
 			// reachability: some return path must be satisfiable (paths are not pruned, so single paths may be infeasible);
 			// the first dozen return paths and a sample of the later ones are tried
 			nReturned++
